@@ -69,3 +69,65 @@ Check c37_sites :
   /\ site_psk_seal_info = ("PskSeed-v1", "", ["group=group"])%string
   /\ site_psk_open_info = ("PskSeed-v1", "", ["group=group"])%string.
 Print Assumptions c37_sites.
+
+(** Topic keys (apq.rs). *)
+Theorem topic_seal_open_context : topic_seal_open_context_stmt.
+Proof. exact topic_seal_open_context_proof. Qed.
+Check topic_seal_open_context :
+  forall (oids : list bytes) (H : bytes -> bytes),
+    (forall a b, H a = H b -> a = b) ->
+    (forall (AKey : Type) Seal Open (Kdf : bytes -> bytes -> AKey),
+       ideal_aead Seal Open ->
+       (forall s i s' i', Kdf s i = Kdf s' i' -> s = s' /\ i = i') ->
+       (forall key c n pt,
+          let ad := tk_seal_ad oids H c in
+          tk_open_message oids H AKey Open key c n (fst (Seal key n ad pt)) (snd (Seal key n ad pt)) = Some pt
+          /\ tk_seal_message oids H AKey Seal key c n pt = n ++ fst (Seal key n ad pt) ++ snd (Seal key n ad pt))
+       /\ (forall key c n pt key' c' n' pt',
+          let ad := tk_seal_ad oids H c in
+          tk_open_message oids H AKey Open key' c' n' (fst (Seal key n ad pt)) (snd (Seal key n ad pt)) = Some pt' ->
+          key' = key /\ t_version c' = t_version c /\ t_topic c' = t_topic c
+          /\ t_enc_id c' = t_enc_id c /\ t_sign_id c' = t_sign_id c /\ n' = n /\ pt' = pt)
+       /\ (forall seed v t seed' v' t',
+          length v = 4%nat -> length v' = 4%nat -> length t = 16%nat -> length t' = 16%nat ->
+          tk_key AKey Kdf seed v t = tk_key AKey Kdf seed' v' t' -> seed = seed' /\ v = v' /\ t = t'))
+    /\ (forall (SK PK SS KEY : Type) pub dh KemKdf (KeySched : bool -> SS -> bytes -> KEY) Seal Open,
+       @ideal_hpke SK PK SS KEY pub dh KemKdf KeySched -> ideal_ctx_aead Seal Open ->
+       (forall e s r seed v t,
+          let '(enc, (ct, tag)) := seal_topic_key oids SK PK SS pub dh KEY KemKdf KeySched Seal e s (pub r) seed v t in
+          open_topic_key oids SK PK SS pub dh KEY KemKdf KeySched Open r (pub s) enc ct tag v t = Some seed)
+       /\ (forall e s r seed v t r' pkS' enc' v' t' seed',
+          length v = length v' -> length t = length t' ->
+          let '(enc, (ct, tag)) := seal_topic_key oids SK PK SS pub dh KEY KemKdf KeySched Seal e s (pub r) seed v t in
+          open_topic_key oids SK PK SS pub dh KEY KemKdf KeySched Open r' pkS' enc' ct tag v' t' = Some seed' ->
+          r' = r /\ pkS' = pub s /\ enc' = enc /\ v' = v /\ t' = t /\ seed' = seed)).
+Print Assumptions topic_seal_open_context.
+
+Theorem c37_apq_sites :
+  site_topic_msg_seal_ad = ("apq msg", "", ["version.to_be_bytes()[..]"; "topic.as_bytes()[..]"; "ident.enc_key.id()"; "ident.sign_key.id()"])%string
+  /\ site_topic_msg_open_ad = ("apq msg", "", ["version.to_be_bytes()[..]"; "topic.as_bytes()[..]"; "ident.enc_key.id()"; "ident.sign_key.id()"])%string
+  /\ site_topic_extract = ("APQ-v1", "topic_key_prk", ["salt=[]"; "seed"])%string
+  /\ site_topic_expand = ("APQ-v1", "topic_key_key", ["prk=prk"; "version.to_be_bytes()"; "topic"])%string
+  /\ site_topic_seal_info = ("TopicKeyRotation-v1", "", ["version=U32::new(version.as_u32())"; "topic=topic.0"])%string
+  /\ site_topic_open_info = ("TopicKeyRotation-v1", "", ["version=U32::new(version.as_u32())"; "topic=topic.0"])%string
+  /\ apq_sender_fields = ["enc_key"; "sign_key"]%string
+  /\ apq_aead_calls = [("seal_message", "seal", ["out"; "nonce"; "plaintext"; "ad"]);
+                       ("open_message", "open", ["dst"; "nonce"; "ciphertext"; "ad"]);
+                       ("seal_topic_key", "seal", ["mutdst"; "key.seed"; "ad"]);
+                       ("open_topic_key", "open", ["mutseed"; "ciphertext"; "ad"]);
+                       ("open_topic_key", "from_seed", ["seed"; "version"; "topic"])]%string.
+Proof. pose proof apq_sites_pinned. tauto. Qed.
+Check c37_apq_sites :
+  site_topic_msg_seal_ad = ("apq msg", "", ["version.to_be_bytes()[..]"; "topic.as_bytes()[..]"; "ident.enc_key.id()"; "ident.sign_key.id()"])%string
+  /\ site_topic_msg_open_ad = ("apq msg", "", ["version.to_be_bytes()[..]"; "topic.as_bytes()[..]"; "ident.enc_key.id()"; "ident.sign_key.id()"])%string
+  /\ site_topic_extract = ("APQ-v1", "topic_key_prk", ["salt=[]"; "seed"])%string
+  /\ site_topic_expand = ("APQ-v1", "topic_key_key", ["prk=prk"; "version.to_be_bytes()"; "topic"])%string
+  /\ site_topic_seal_info = ("TopicKeyRotation-v1", "", ["version=U32::new(version.as_u32())"; "topic=topic.0"])%string
+  /\ site_topic_open_info = ("TopicKeyRotation-v1", "", ["version=U32::new(version.as_u32())"; "topic=topic.0"])%string
+  /\ apq_sender_fields = ["enc_key"; "sign_key"]%string
+  /\ apq_aead_calls = [("seal_message", "seal", ["out"; "nonce"; "plaintext"; "ad"]);
+                       ("open_message", "open", ["dst"; "nonce"; "ciphertext"; "ad"]);
+                       ("seal_topic_key", "seal", ["mutdst"; "key.seed"; "ad"]);
+                       ("open_topic_key", "open", ["mutseed"; "ciphertext"; "ad"]);
+                       ("open_topic_key", "from_seed", ["seed"; "version"; "topic"])]%string.
+Print Assumptions c37_apq_sites.
